@@ -256,7 +256,7 @@ def translate_rule(fn):
 
 HEAD = ('(* generated by harness/c18_translate.py from smt/veriT/verit_macro.py -- do not edit *)\n'
         'From Coq Require Import List String Bool Arith.\nImport ListNotations.\n'
-        'From HolpyV Require Import TruthTable Alethe AletheSound AletheGen.\nOpen Scope list_scope.\n\n')
+        'From HolpyV Require Import TruthTable Alethe AletheSound Alethe2 AletheSimp AletheGen.\nOpen Scope list_scope.\n\n')
 
 
 def translate(repo):
@@ -282,8 +282,18 @@ def lemma_text(rule):
             'Proof. gen_sound gen_%s. Qed.\nPrint Assumptions gen_sound_%s.\n' % (rule, rule, rule, rule))
 
 
+def eq_lemma_text(rule):
+    """The regenerated definition equals the hand-written model of the rule (Alethe.v / Alethe2.v / AletheSimp.v), for all
+    arguments and premises: the theorems stated about the hand-written models hold of the code as it is now."""
+    hand = 'acc_' + rule[len('verit_'):]
+    return ('Lemma gen_eq_hand_%s : forall args prems, gen_%s args prems = %s args prems.\n'
+            'Proof. intros args prems. unfold gen_%s, %s.\n'
+            '  try unfold acc_implies_simplify_gen, implies_case9; try unfold bool_simplify_ok; try unfold is_true, is_false.\n'
+            '  eq_crack; eq_finish. Qed.\nPrint Assumptions gen_eq_hand_%s.\n' % (rule, rule, hand, rule, hand, rule))
+
+
 def rule_file(rule, definition):
-    return HEAD + definition + '\n' + lemma_text(rule)
+    return HEAD + definition + '\n' + lemma_text(rule) + '\n' + eq_lemma_text(rule)
 
 
 def prove_rules(repo, verif, gdir, ncpu=8):
@@ -315,7 +325,7 @@ def prove_rules(repo, verif, gdir, ncpu=8):
             pr = subprocess.run(['coqc', '-q', '-Q', os.path.join(verif, 'coq', 'theories'), 'HolpyV', '-Q', gdir, 'GenC18', path],
                                 capture_output=True, text=True, timeout=1500)
             out = pr.stdout + pr.stderr
-            ok = pr.returncode == 0 and 'Closed under the global context' in out and 'Axioms:' not in out
+            ok = pr.returncode == 0 and out.count('Closed under the global context') == 2 and 'Axioms:' not in out
         except subprocess.TimeoutExpired:
             ok, out = False, 'coqc timed out'
         if ok:
